@@ -119,11 +119,8 @@ row("crate::string::<impl core::str::traits::FromStr for %s>::from_str" % U, "fo
     requires=[{"test": "core::str::<impl str>::is_char_boundary", "truth": True}])
 
 # ---- codecs: encoders (C16) -- sizes derived from bit_len
-for m in ("alloy_rlp::<impl alloy_rlp::encode::Encodable", "fastrlp_03::<impl fastrlp::encode::Encodable",
-          "fastrlp_04::<impl fastrlp::encode::Encodable"):
-    row("crate::support::%s for %s>::encode" % (m, U), "foreign", IDX,
-        "&bytes[BYTES - (bits+7)/8 ..] with bits = bit_len() <= BITS, bytes.len() == BYTES (as_le_slice_mut): "
-        "start <= len by bit_len's range (value summary of bit_len, trusted)")
+# (the rlp encoders' &bytes[BYTES - (bits+7)/8 ..] is discharged by the interval engine since bit_len's range
+#  [0, BITS] became a built-in trusted summary, see DESIGN section 6)
 for m in ("fastrlp_03", "fastrlp_04"):
     f = "crate::support::%s::<impl fastrlp::decode::Decodable for %s>::decode" % (m, U)
     row(f, "foreign", IDX, "&buf[..header.payload_length]: fastrlp's Header::decode checks payload_length <= "
